@@ -5,6 +5,7 @@
    `wf` excludes keywords as path heads and a reference whose referent is again a reference (known finding D10: the real parser panics on `Option<&'a &'a u8>`).
    That rustc accepts the expansion (trait resolution, lifetimes, hygiene) cannot be modelled here; it is TESTED by compiling generated declarations. *)
 From Coq Require Import List Arith String.
+From Coq Require Import Lia.
 Require Import P.ParseModel P.ParseGrammar P.ParseProof P.ParsePrintModel P.ParsePrint P.ParseDecl P.ParseDeclGrammar P.ParseDeclProof P.ParseInterp P.ParseInterpProof.
 Theorem parse_complete : forall t rest, wf t -> stop rest -> next_type (S (depth t)) (lex t ++ rest) = Ok (Some (embed t)) rest.
 Proof. exact ParseProof.parse_complete. Qed.
@@ -27,10 +28,48 @@ Proof. exact ParsePrint.print_parse_roundtrip. Qed.
    several attributes per item) and foreign attributes / doc comments, optional `pub`, lifetime / type / const parameters with bounds and defaults,
    a where clause over paths, tuples and arrays (with or without trailing comma), named fields with attributes and any visibility — is parsed
    to exactly the expected structure, nothing panics and nothing is left over. The bounds pass through the HashSet (the dedup functions) exactly when a
-   where clause is present. wf_decl asks for distinct parameter / where-clause names, non-keyword identifiers, well-formed types. *)
+   where clause is present. A where-clause item either bounds something new (a path, tuple or array type) or names a declared TYPE
+   parameter, whose bounds it extends (`struct S<T: A> where T: B` gives T the bounds A and B). wf_decl asks for distinct parameter names,
+   non-keyword identifiers, well-formed types. *)
 Theorem struct_parse_complete : forall dedup_ty dedup_lt fuel d, wf_decl fuel d ->
   parse_data dedup_ty dedup_lt fuel (lexd d) = Ok (expected dedup_ty dedup_lt d) nil.
 Proof. exact ParseDeclProof.struct_parse_complete. Qed.
+(* the hypotheses of struct_parse_complete are satisfiable: a declaration with doc comment, struct-level and field-level attributes, lifetime,
+   bounded type parameter, const parameter with default, a where clause that extends T and bounds Vec<T>, trailing commas *)
+Section Example.
+Import ListNotations.
+Local Open Scope string_scope.
+Definition T_ := GPath "T" [] [].
+Definition ex_decl : gdecl :=
+  {| d_attrs := [GAOther "doc" [TP PEq; TLit (LStr " a struct")]; GADiff [IFlag "setters"] false];
+     d_pub := true; d_name := "S";
+     d_generics := Some {| gg_params := [PLife "a" []; PType "T" [GPath "Clone" [] []] None; PConst "N" (GPath "usize" [] []) (Some (LNum 4))];
+                           gg_where := Some ([ {| gw_ty := T_; gw_bounds := [GPath "Default" [] []] |};
+                                               {| gw_ty := GPath "Vec" [] [T_]; gw_bounds := [GPath "Clone" [] []; GLt "a"] |} ], true) |};
+     d_fields := [ {| gf_attrs := [GADiff [IFlag "skip"] true]; gf_vis := VPub; gf_name := "f"; gf_ty := GPath "Option" [] [GRef (Some "a") T_] |};
+                   {| gf_attrs := [GADiff [IKv "collection_strategy" (LStr "ordered_array_like"); IFlag "setter"] false; GAOther "allow" [TG Paren [TId "unused"]]];
+                      gf_vis := VPubIn [TId "crate"]; gf_name := "g"; gf_ty := GArray (GPath "u8" [] []) (Some (LName "N")) |} ];
+     d_trailing := true |}.
+Ltac nd := repeat (constructor; [cbn; intros H; repeat (destruct H as [H|H]; try discriminate); try contradiction|]); try constructor.
+Example ex_wf : wf_decl 10 ex_decl.
+Proof.
+  split; [repeat constructor; cbn; auto; discriminate|].
+  split; [|split; [|discriminate]].
+  - (* generics *)
+    split; [repeat constructor; cbn; auto; lia|]. split; [cbn; nd|].
+    split; [|split; [discriminate|]].
+    + (* where items are well formed *)
+      repeat constructor; cbn; auto; try lia; try discriminate.
+    + (* the first names the type parameter T, the second is new *)
+      cbn [where_ok]. split; [right; exists "T", None, [Ty (CNamed ["Clone"]) None None None]; split; [reflexivity|right; left; reflexivity]|].
+      split; [left; vm_compute; intros H; repeat (destruct H as [H|H]; try discriminate); contradiction|exact I].
+  - (* fields *)
+    repeat constructor; cbn; auto; try lia; try discriminate.
+Qed.
+Example ex_parse : parse_data (fun x => x) (fun x => x) 10 (lexd ex_decl) = Ok (expected (fun x => x) (fun x => x) ex_decl) [].
+Proof. vm_compute. reflexivity. Qed.
+End Example.
+
 (* the INTERPRETATION of attributes (derive/src/shared.rs; model P/ParseInterp.v): two attribute lists that carry the same difference items —
    however grouped into one or several #[difference(..)], comma-terminated or not, in any order, between any foreign attributes and doc
    comments — are read identically (skip, recurse, setters, map and collection strategy, setter options), provided no item name occurs twice.
@@ -53,6 +92,21 @@ Proof.
   intros items ND. split; [intros n; apply flag_spec|]. split; [apply map_strategy_spec; exact ND|]. split; [apply collection_type_spec; exact ND|].
   intros n v. apply lookup_in. exact ND.
 Qed.
+(* end to end over the front end: what the templates read off the k-th field of a parsed declaration is decided by the items the user wrote on it *)
+Theorem parsed_field_flags : forall dedup_ty dedup_lt fuel d st, wf_decl fuel d ->
+  parse_data dedup_ty dedup_lt fuel (lexd d) = Ok st nil ->
+  List.length (s_fields st) = List.length (d_fields d) /\
+  forall k f pf, nth_error (d_fields d) k = Some f -> nth_error (s_fields st) k = Some pf ->
+    f_name pf = Some (gf_name f) /\ f_ty pf = embed (gf_ty f) /\
+    (forall n, flag n (f_attrs pf) = true <-> In (IFlag n) (items_of (gf_attrs f))).
+Proof.
+  intros dt dl fuel d st W P. rewrite (struct_parse_complete dt dl fuel d W) in P. injection P as <-.
+  cbn [expected s_fields]. split; [apply map_length|].
+  intros k f pf Hf Hpf. rewrite nth_error_map, Hf in Hpf. cbn in Hpf. injection Hpf as <-.
+  cbn [exp_field f_name f_ty f_attrs]. split; [reflexivity|]. split; [reflexivity|].
+  intros n. rewrite exp_attrs_items. apply flag_spec.
+Qed.
+
 (* the finding the proof produced: `&&T` is not consumed as one type (the real parser then panics on the leftover) *)
 Example nested_ref_not_one_type :
   next_type 5 (lex (GRef None (GRef None (GPath "T" nil nil)))) = Ok (Some (Ty CUnNamed None (Some None) None)) (TP PAmp :: TId "T" :: nil).
@@ -63,3 +117,4 @@ Print Assumptions print_parse_roundtrip.
 Print Assumptions struct_parse_complete.
 Print Assumptions interpretation_stable.
 Print Assumptions attribute_readings.
+Print Assumptions parsed_field_flags.
